@@ -196,7 +196,7 @@ def run(ctx):
     kindsS = ['zero', 'tiny', 'eps', 'sqrteps', 'one', 'large']
     cases, meta = [], []
     plan = []
-    counts = {'so3': ctx.scale(60, 3000), 'se3': ctx.scale(40, 2500), 'rxso3': ctx.scale(30, 1500), 'sim3': ctx.scale(24, 2000)}
+    counts = {'so3': ctx.scale(300, 6000), 'se3': ctx.scale(300, 6000), 'rxso3': ctx.scale(200, 4000), 'sim3': ctx.scale(400, 8000)}
     for alg in ALGS:
         # directed: every combination of rotation / scale regimes (translation generic); dtypes alternate
         # in the quick tier and are both taken in the thorough tier
@@ -204,7 +204,7 @@ def run(ctx):
         for kr in kindsR:
             for ks in (kindsS if alg in ('rxso3', 'sim3') else ['zero']):
                 k += 1
-                for dname in (('float64', 'float32') if ctx.thorough else (('float64',) if k % 3 else ('float32',))):
+                for dname in ('float64', 'float32'):
                     plan.append((alg, dname, (kr, rng.choice(['one', 'large', 'tiny']), ks)))
         for _ in range(counts[alg]):
             plan.append((alg, 'float64' if rng.random() < 0.7 else 'float32',
@@ -233,10 +233,10 @@ def run(ctx):
         ctx.case((alg, dname, tuple(x)), nontrivial=any(v != 0 for v in x), branch=br,
                  sample=dict(alg=alg, dtype=dname, x=x, impl=o) if i % 211 == 7 else None)
         meta.append(dict(alg=alg, dtype=dname, x=x, impl=o, kinds=kinds))
-        epsl = '(1/4503599627370496)' if dname == 'float64' else '(1/8388608)'
-        cases.append(dict(idx=i, expr='exp_l %s %d %s' % (epsl, ALGS.index(alg), rlist(x)),
+        epsl = 'E64' if dname == 'float64' else 'E32'
+        cases.append(dict(idx=i, expr='exp_l (NF:=@NF@) (TF:=TransIv) %s %d %s' % (epsl, ALGS.index(alg), ivlist(x)),
                           comps=[(j, o[j], t) for j, t in tolerances(alg, o, eps)]))
-    r = run_enclosure('C01', 'Model.LieGroup Model.LieExp', cases, prec=220, per_file=ctx.scale(8, 30), timeout_goal=200)
+    r = run_interval('C01', 'Model.LieGroup Model.LieExp', cases)
     for name, out in r['broken']:
         ctx.obligation_broken('correspondence-file:' + name, out)
     ctx.notes.append('enclosure: %d proved within tolerance, %d proved outside, %d undecided' % (len(r['ok']), len(set(i for i, _ in r['bad'])), len(r['undecided'])))
